@@ -647,7 +647,8 @@ def _message_length(ctx, repo, msg):
                         has_pad = not tv_
                 delta = sym.add(p_.get(acc), A, -1)
                 want = sym.add(Lx, PADT) if has_pad else Lx
-                good = delta == want or (has_pad is None and delta == sym.add(Lx, PADT))
+                # (`pad or 0` as a value: the padding when there is one, 0 for None / 0)
+                good = delta == want or (has_pad is None and delta in (sym.add(Lx, PADT), sym.add(Lx, ("or", (PADT, 0)))))
                 rows.append((has_pad, sym.show(delta)))
                 ctx.decide(good, "R-FLOW/refresh", f"{msg.qual}.refresh", msg.where(loop),
                            f"refresh adds the AVP length{' + padding' if has_pad else ''}",
